@@ -703,3 +703,59 @@ Theorem rt_row_gen d u lags e : lagcmp_spec_ok d = true -> rt_row_with (eval_lag
 Proof.
   intros H. unfold rt_row, rt_row_with. f_equal. apply filter_ext. intros a. apply lagcmp_ok_sound, H.
 Qed.
+
+(* the cell that backfill extends backwards is the FIRST cell of its period in t.cells (for a sorted
+   triangle: the earliest observation of the period's first slice) *)
+Theorem bf_go_first res bound statics : 0 < res -> forall t seen out,
+  bf_go res bound statics seen t = Ok out ->
+  forall x, In x out -> In x t \/
+    exists c vals pre post, t = pre ++ c :: post /\ (forall d, In d pre -> period d <> period c) /\
+      existsb (zpair_eqb (period c)) seen = false /\
+      backfill_values statics c = Ok vals /\ In x (backfill_cells res bound vals c).
+Proof.
+  intros Hr. induction t as [|c r IH]; intros seen out; simpl.
+  - intros H. inversion H. intros ? [].
+  - destruct (existsb (zpair_eqb (period c)) seen) eqn:Eseen.
+    + destruct (bf_go res bound statics seen r) as [l|e] eqn:E; [|discriminate]. intros H. inversion H; subst.
+      intros x [<-|Hx]; [left; now left|].
+      destruct (IH _ _ E x Hx) as [?|[c' [v [pre [post [-> [Hpre [Hs [Hv Hx']]]]]]]]]; [left; now right|].
+      right. exists c', v, (c :: pre), post. repeat split; try assumption.
+      intros d [<-|Hd]; [|auto]. intros Ep. rewrite Ep in Eseen. congruence.
+    + destruct (backfill_values statics c) as [vals|e] eqn:Ev; [|discriminate].
+      destruct (bf_go res bound statics (period c :: seen) r) as [l|e] eqn:E; [|discriminate].
+      intros H. inversion H; subst. intros x Hx. apply in_app_or in Hx. destruct Hx as [Hx|[<-|Hx]].
+      * right. exists c, vals, [], r. repeat split; try assumption. intros d [].
+      * left. now left.
+      * destruct (IH _ _ E x Hx) as [?|[c' [v [pre [post [-> [Hpre [Hs [Hv Hx']]]]]]]]]; [left; now right|].
+        simpl in Hs. apply orb_false_iff in Hs. destruct Hs as [Hs1 Hs2].
+        right. exists c', v, (c :: pre), post. repeat split; try assumption.
+        intros d [<-|Hd]; [|auto]. intros Ep. rewrite Ep in Hs1.
+        assert (zpair_eqb (period c') (period c') = true) by (apply zpair_eqb_eq; reflexivity). congruence.
+Qed.
+
+Theorem backfill_first statics res min_lag t out :
+  0 < res -> backfill statics (Some res) min_lag t = Ok out ->
+  forall x, In x out -> In x t \/
+    exists c vals pre post pres, t = pre ++ c :: post /\ (forall d, In d pre -> period d <> period c) /\
+      period_resolution t = Ok (Some pres) /\ backfill_values statics c = Ok vals /\
+      In x (backfill_cells res (Z.max min_lag (- pres + 1)) vals c).
+Proof.
+  intros Hr. unfold backfill. destruct (period_resolution t) as [[pres|]|e]; try discriminate.
+  assert (res <=? 0 = false) as -> by lia. intros H x Hx.
+  destruct (bf_go_first res _ statics Hr t [] out H x Hx) as [?|[c [v [pre [post [E [Hpre [_ [Hv Hx']]]]]]]]]; [tauto|].
+  right. exists c, v, pre, post, pres. auto.
+Qed.
+
+(* with the sortedness invariant of a triangle (C01), that cell is the earliest of its slice & period *)
+Definition rows_sorted (t : list cell) : Prop :=
+  forall pre c post, t = pre ++ c :: post -> forall d, In d post ->
+    period d = period c -> meta_pyeq (cmeta c) (cmeta d) = true -> ev c <= ev d.
+Lemma first_of_period_earliest t pre c post :
+  rows_sorted t -> t = pre ++ c :: post -> (forall d, In d pre -> period d <> period c) ->
+  forall d, In d t -> period d = period c -> meta_pyeq (cmeta c) (cmeta d) = true -> ev c <= ev d.
+Proof.
+  intros Hs E Hpre d Hd Hp Hm. rewrite E in Hd. apply in_app_or in Hd. destruct Hd as [Hd|[<-|Hd]].
+  - exfalso. apply (Hpre d Hd Hp).
+  - lia.
+  - eapply Hs; eassumption.
+Qed.
